@@ -259,6 +259,40 @@ theorem converged_check (cfg : Cfg) (jit : Time → Time) (w : WState σ) (E : E
   · simp only [if_true]
     exact ⟨⟨hp, hlast, hnow, hst.etag⟩, fun t _ => ⟨by simp, by simp⟩⟩
 
+/-- the first check of a convergence may still see an older answer of `etag()`: the source changes
+    for the last time between that `etag()` and the `load()` -/
+theorem wcheck_mid (H : Honest S) (cfg : Cfg) (jit : Time → Time) (mid : σ → σ) (w : WState σ) (E : EtagObs) (D : Doc)
+    (o : EtagObs) (hg : H.good w.src) (hmid : H.EnvOk mid) (he : (S.etag w.src).1 = .ok o)
+    (hst : StableAt S E D (mid (S.etag w.src).2)) (hnow : w.rs.suppressUntil ≤ w.now) :
+    StableAt S E D (wcheck S cfg false jit mid w).1.src ∧
+    (wcheck S cfg false jit mid w).1.rs.suppressUntil = w.rs.suppressUntil ∧
+    (wcheck S cfg false jit mid w).1.now = w.now ∧
+    H.version (wcheck S cfg false jit mid w).1.src = H.version (mid (S.etag w.src).2) := by
+  have hl := (hst _ (.refl _)).2
+  have hg2 := (hmid _ (H.etag_good _ hg)).1
+  unfold wcheck
+  simp only [unsuppressed_of_le _ _ hnow, Bool.false_eq_true, if_false]
+  rw [he]
+  unfold afterEtag
+  simp only [Bool.false_eq_true, if_false]
+  cases hc : (o.toOpt.isSome && o.toOpt == w.rs.lastEtag)
+  · simp only [Bool.false_eq_true, if_false, afterLoad, hl, publish]
+    exact ⟨hst.load, trivial, trivial, H.load_ver _ hg2⟩
+  · simp only [if_true]
+    exact ⟨hst, trivial, trivial, trivial⟩
+
+/-- a set of source states closed under the source's own calls, on which the answers are constant -/
+theorem stable_of_inv (I : σ → Prop) (E : EtagObs) (D : Doc)
+    (hetag : ∀ w, I w → I (S.etag w).2) (hload : ∀ w, I w → I (S.load w).2)
+    (hans : ∀ w, I w → (S.etag w).1 = .ok E ∧ (S.load w).1 = .ok D) (w : σ) (hw : I w) : StableAt S E D w := by
+  intro w' hc
+  have : I w' := by
+    induction hc with
+    | refl => exact hw
+    | etag _ ih => exact hetag _ ih
+    | load _ ih => exact hload _ ih
+  exact hans w' this
+
 /-- the suffix after convergence: clock advances and unforced checks, the source left alone -/
 def Quiet (evs : List (WEvent σ)) : Prop :=
   ∀ ev ∈ evs, (∃ dt, ev = .advance dt) ∨ (∃ jit, ev = .check false jit id)
